@@ -49,6 +49,8 @@ def ev_N12():
         T("P", ["A01"], "P", ["B01"], [30]),
         T("P", ["A01", "B01"], "P", ["B01", "A02"], [30, 30]),
         T("Q", ["B01"], "T", ["A02"], [7.5]),
+        T("T", ["B02"], "Q", ["B02"], [7.5]),
+        T("Q", ["A01"], "T", ["C02"], [7.5]),
         R("T", 0, "Q", ["A01", "B01", "A02"], 30),
         R("T", 1, "P", ["A01", "B03"], 7.5),
         D("Q", ["A01"], 30, compositions=[{"x": 1.0}]),
